@@ -272,6 +272,22 @@ CHECKS["C11"] = dict(
     technique="invariant/refinement proofs over Gallina state machines + fail-closed AST translation of unload() + exhaustive/random correspondence",
     design="5/C11")
 
+CHECKS["C18"] = dict(
+    text="Coq proofs (37 theorems): FP2Value arithmetic - translated from value.py on every run - equals fraction arithmetic in "
+         "Z_p[x]/(x^2+x+1) for all operands and all moduli, its == decides fraction equality for all prime moduli, hence the field laws; "
+         "_modinv and intpow correct for all inputs (fuel bounds proved); the honest bit-pair round reconstructs the hash's profile in "
+         "every order and subset, scoring the true value 1-2^-n and every other profile 0 (over exact rationals); decode(encode m) and "
+         "the homomorphism under abstract-group hypotheses; range-proof completeness, honest unbuildability outside the range, "
+         "serialisation round trips. Tied to the real code by differential runs (raw operands incl. general denominators and 16-512 bit "
+         "moduli, fresh-key end-to-end exact and range proofs in all orders/subsets for small bit spaces, two-node AttestationCommunity "
+         "runs with honest and forging provers) and an independent oracle.",
+    note="Trusted: Coq kernel; tr_value/tr_expr; hand models tied by correspondence; bgn_keypair / abelian_group hypotheses on the "
+         "Weil-pairing group (ec.py, get_good_wp not verified); floats compared with rationals within 1e-12. Range-proof soundness "
+         "against a prover who knows the group order is REFUTED (open finding range/forged-proof-accepted-by-key-owner); completeness "
+         "needs m2 >= 0. Model follows fixes 9d47978, 4e0f241.",
+    technique="translation + ring/congruence proofs; induction on fuel, lists, permutations; abstract-group Sections; vm_compute correspondence",
+    design="5/C18")
+
 NOT_APPLICABLE = {}
 
 
